@@ -3,6 +3,7 @@ From Coq Require Import Reals Bool Lra List.
 From Interval Require Import Tactic.
 From SpdVerif Require Import Base.Rx Model.SpectrumSetup Gen.Spectrum Model.Spectrum
   Proofs.C07_envelope Proofs.C07_support Proofs.C07_defined.
+From SpdVerif Require Import Spec.CrystalTypes Gen.Crystals Proofs.Sellmeier Model.Optics Model.Fresnel Proofs.C07_builtin.
 Local Open Scope R_scope.
 
 Ltac fields := cbn [omega_p omega_s0 omega_i0 fwhm threshold pp_off len power deff wpx wpy wsx wsy wix wiy theta_s_e theta_i_e
@@ -32,4 +33,12 @@ Proof.
   - left. unfold outside_box, example_setup; fields. right; right; left. lra.
   - right. unfold pump_spectral_amplitude, fwhm_to_spectral_width, frequency_to_vacuum_wavelength,
       vacuum_wavelength_to_frequency, example_setup; fields. interval.
+Qed.
+
+Lemma example_builtin : in_window KTP (lambda_um 1.2e15) /\ temp_ok 20 /\ unit_vec (0, 0, 1).
+Proof.
+  split; [|split].
+  - unfold in_window, lambda_um, frequency_to_vacuum_wavelength. cbn [get_meta meta_KTP meta_range]. split; interval.
+  - unfold temp_ok. lra.
+  - unfold unit_vec, vnorm2, vdot, vx, vy, vz. cbn [fst snd]. ring.
 Qed.
